@@ -384,3 +384,88 @@ os._exit(0)
     r = subprocess.run([sys.executable, "-c", code], capture_output=True, text=True)
     if r.returncode != 0:
         raise HarnessError("numba warm-up failed:\n" + r.stderr[-3000:])
+
+
+# ---------------------------------------------------------------------------
+# one pristine forked child per case (process-level checks: C12, C14, C15)
+# ---------------------------------------------------------------------------
+def forked_map(modname, fnname, cases, tmp_root, nproc=None, timeout=900):
+    """Run fn(case) for every case, each in its OWN child forked from this process (which has
+    imported bldfm but never solved, never started a thread pool).  Up to nproc children run
+    concurrently; results come back over pipes, in case order.  A child that dies or times out is
+    a harness error."""
+    import pickle
+    import select
+
+    nproc = nproc or NPROC
+    cases = list(cases)
+    results = [None] * len(cases)
+    running = {}
+    nxt = 0
+    sys.stdout.flush()
+    sys.stderr.flush()
+    while nxt < len(cases) or running:
+        while nxt < len(cases) and len(running) < nproc:
+            r, w = os.pipe()
+            pid = os.fork()
+            if pid == 0:
+                code = 0
+                try:
+                    os.close(r)
+                    d = tempfile.mkdtemp(prefix="c%d_" % os.getpid(), dir=tmp_root)
+                    os.chdir(d)
+                    res = _call((modname, fnname, cases[nxt]))
+                    data = pickle.dumps(res)
+                    mv = memoryview(data)
+                    while len(mv):
+                        k = os.write(w, mv[: 1 << 16])
+                        mv = mv[k:]
+                    os.close(w)
+                    os.chdir("/")
+                    shutil.rmtree(d, ignore_errors=True)
+                except BaseException:
+                    try:
+                        traceback.print_exc()
+                    finally:
+                        code = 3
+                finally:
+                    os._exit(code)
+            os.close(w)
+            running[r] = (nxt, pid, bytearray(), time.time())
+            nxt += 1
+        rl, _, _ = select.select(list(running), [], [], 1.0)
+        for fd in rl:
+            idx, pid, buf, t0 = running[fd]
+            data = os.read(fd, 1 << 20)
+            if data:
+                buf.extend(data)
+                continue
+            os.close(fd)
+            _, status = os.waitpid(pid, 0)
+            del running[fd]
+            if status != 0 or not buf:
+                for fd2, (i2, p2, _, _) in running.items():
+                    try:
+                        os.kill(p2, 9)
+                    except OSError:
+                        pass
+                raise HarnessError("child for case %s exited with status %r and %d bytes of result" % (canon(cases[idx])[:300], status, len(buf)))
+            results[idx] = pickle.loads(bytes(buf))
+        now = time.time()
+        for fd, (idx, pid, buf, t0) in list(running.items()):
+            if now - t0 > timeout:
+                for fd2, (i2, p2, _, _) in running.items():
+                    try:
+                        os.kill(p2, 9)
+                    except OSError:
+                        pass
+                raise HarnessError("child for case %s timed out after %ds" % (canon(cases[idx])[:300], timeout))
+    return results
+
+
+def run_forked(ctx, fn, cases, sub=None, nproc=None, timeout=900):
+    cases = list(cases)
+    res = forked_map(fn.__module__, fn.__name__, cases, ctx.tmp_root, nproc=nproc, timeout=timeout)
+    for case, r in zip(cases, res):
+        ctx.add(fn.__name__, case, r, sub or fn.__name__)
+    return res
